@@ -1,5 +1,5 @@
 (* Props_C08.v — property C08: theorem statements only. *)
-From Verif Require Import Base Sem Where_Model Where_Proofs Where_Render Where_Sem C08_Hist C08_HistProofs C08_Assoc C08_AssocProofs.
+From Verif Require Import Base Sem Where_Model Where_Proofs Where_Render Where_Sem C08_Hist C08_HistProofs C08_Assoc C08_AssocProofs C08_Write C08_WriteProofs.
 
 (* Whatever conditions a chain supplies (any number of Where/Not/Or calls in any order, any
    form), the WHERE expressions of a soft-delete statement never contain an OR alternative at
@@ -126,6 +126,42 @@ Example c08_slice_named_example :
   hrun s0 [OUpdate (HKeys [101]) 9; OUpdate (HKeys [0; 3]) 7; ODelete (HKeys []) 8; OUUpdate (HKeys [101; 1]) 2]
   = ([mk_hrow 1 2 (Some 8); mk_hrow 101 2 (Some 5); mk_hrow 3 7 (Some 8)], [[0]; [1]; [2]; [2]]).
 Proof. vm_compute. reflexivity. Qed.
+
+(* THE WHERE CLAUSE OF A WRITE WHOSE MODEL / DELETE VALUE NAMES RECORDS BY KEY (C08_Write: the functions
+   the checker runs on the Update and the Delete statement of every case).  Update: the filter is
+   added before the key conditions are appended; for every list of user expressions and every list of
+   key conditions (clause.Eq / clause.IN values: atoms) the text parses and means
+   (user's conditions) AND (deleted_at IS NULL) AND (every key condition): a marked record is never
+   matched, whatever records the value names. *)
+Theorem c08_update_key_conditions_are_conjuncts : forall v live nlive user keys E,
+  forallb is_atom keys = true ->
+  ok_where (update_exprs live nlive user keys) = true ->
+  parse (where_tokens (update_exprs live nlive user keys)) = Some E ->
+  evE v E = tv_and (tv_and (val_list v user) (v live)) (keys_val v keys).
+Proof. exact update_filter_conjunct. Qed.
+Print Assumptions c08_update_key_conditions_are_conjuncts.
+Theorem c08_update_never_matches_marked : forall v live nlive user keys E,
+  forallb is_atom keys = true ->
+  ok_where (update_exprs live nlive user keys) = true ->
+  parse (where_tokens (update_exprs live nlive user keys)) = Some E ->
+  v live <> TT -> evE v E <> TT.
+Proof. exact update_never_matches_marked. Qed.
+Print Assumptions c08_update_never_matches_marked.
+(* Delete: the key conditions are appended first, then everything is grouped under the filter *)
+Theorem c08_delete_filter_is_conjunct : forall v live nlive user keys E,
+  ok_where (delete_exprs live nlive user keys) = true ->
+  parse (where_tokens (delete_exprs live nlive user keys)) = Some E ->
+  evE v E = tv_and (val_list v (user ++ keys)) (v live).
+Proof. exact delete_filter_conjunct. Qed.
+Print Assumptions c08_delete_filter_is_conjunct.
+(* the hypothesis "key conditions are atoms" is needed: a key condition added as a single-member Or
+   (clause.Or(group) of ONE record without the clause.And wrapper) lets a marked row through *)
+Theorem c08_update_single_or_key_refuted :
+  exists v live nlive user key E,
+    parse (where_tokens (update_exprs live nlive user [XOr [key]])) = Some E /\
+    v live = TF /\ evE v E = TT.
+Proof. exact single_or_key_refuted. Qed.
+Print Assumptions c08_update_single_or_key_refuted.
 
 (* ---- association paths (C08_Assoc: the functions the checker runs on the fixture of every third
    case).  For every related table, parent key, caller condition and ON condition: ---- *)
